@@ -25,7 +25,10 @@ PROGS = {1: [1, 240, 160, 225, 0, 0, 160, 225, 0, 0, 160, 225],
          4: [178, 32, 211, 225, 1, 16, 129, 226, 4, 240, 31, 229],
          5: [3, 32, 131, 229, 0, 0, 160, 225, 0, 0, 160, 225],      # runs with SCTLR.M = 1 (see MC_Multi.tla)
          # determinism-only program (not in MC_Multi): flag-setting immediates whose carry-out is the incoming C flag
-         6: [1, 0, 176, 227, 240, 16, 145, 227, 3, 32, 18, 226]}    # MOVS r0,#1 ; ORRS r1,r1,#0xF0 ; ANDS r2,r2,#3
+         6: [1, 0, 176, 227, 240, 16, 145, 227, 3, 32, 18, 226],    # MOVS r0,#1 ; ORRS r1,r1,#0xF0 ; ANDS r2,r2,#3
+         # determinism-only: a result the architecture leaves UNKNOWN (STM with write-back storing a base that is not the lowest
+         # listed register) may be any value - but the same value every time the same snapshot is stepped
+         7: [128, 80, 160, 227, 112, 0, 165, 232, 8, 48, 21, 229]}   # MOV r5,#128 ; STMIA r5!,{r4,r5,r6} ; LDR r3,[r5,#-8]
 
 
 def init_state(base, c, p):
